@@ -455,3 +455,14 @@ Check dictzip_standins_lawful :
   lru_lawful alru_get alru_put alru_remove /\
   dz_codec_lawful toy_comp toy_decomp (fun c => Some (rev c)) (fun e _ => Some (rev e)).
 Print Assumptions dictzip_standins_lawful.
+
+(* recorded finding plain_id_wraparound: the id counter of PlainBlobStore wraps at 2^32 exactly like MemoryBlobStore's; a store
+   opened on a directory that holds a file named 4294967294 overwrites live record 1 on its third put, and a file named
+   4294967295 makes new() overflow (hence the bound `1 + pputs ops < W32` in the positive theorems) *)
+Theorem plain_id_wraparound_refuted :
+  (exists m st0, NoDup (dnames m) /\ canonical W32 m /\ plain_open m = Some st0 /\
+    let '(st1, _) := plain_put st0 [7] in let '(st2, _) := plain_put st1 [8] in let '(st3, id3) := plain_put st2 [9] in
+    id3 = Some 1 /\ snd (plain_get st0 1) = Some [1] /\ snd (plain_get st3 1) = Some [9]) /\
+  plain_open [(render 4294967295, [])] = None.
+Proof. exact (conj plain_wrap_overwrites plain_open_overflow). Qed.
+Print Assumptions plain_id_wraparound_refuted.
